@@ -262,7 +262,9 @@ def check(model, tier):
             if problem is None and isinstance(vb, ast.Attribute) and vb.attr == "payload":
                 texts = {src(v)} | _names_for(src(vb))
                 tested = any(fct.kind == "IS" and not fct.polarity and "None" in fct.args and set(fct.args) & texts for fct in facts)
-                persisted_flag = any(fct.kind == "TRUTH" and fct.polarity and "persisted" in fct.args[0] for fct in facts)
+                # ... or the recursive call said that its result carries one (second element of its answer)
+                flags = {nm for nm, b in envj.items() if isinstance(b, tuple) and b and b[0] == "unpack" and b[2] == 1 and isinstance(b[1], ast.Call) and call_attr(b[1]) == "_process_recursive"}
+                persisted_flag = any(fct.kind == "TRUTH" and fct.polarity and fct.args[0] in flags for fct in facts)
                 if not tested and not persisted_flag:
                     problem = f"`{src(c)[:70]}` passes on `{src(vb)[:50]}` without having tested that it is not None: the node stays without payload and is evaluated again by every later run"
             if problem:
